@@ -81,6 +81,8 @@ type regState struct {
 	opKey   byte
 	quiesc  []regQuiesce
 	rr      []regRR
+	// close callbacks of every other tunnel wait here (see OnReverseTunnelClose)
+	slowGate chan struct{}
 }
 
 type regQuiesce struct {
@@ -115,18 +117,29 @@ func keyAny(key string) any {
 
 func runRegistry(w *World, rs *RunSpec) {
 	c := w.C
-	rg := &regState{}
+	rg := &regState{slowGate: make(chan struct{})}
 	w.reg = rg
 	// the handler: affinity key from the tunnel-opening metadata
 	opts := grpctunnel.TunnelServiceHandlerOptions{}
+	var tunnelOf func(ch grpctunnel.TunnelChannel) *regTunnel
 	opts.AffinityKey = func(ch grpctunnel.TunnelChannel) any {
 		md, _ := metadata.FromIncomingContext(ch.Context())
+		// The key function of an application need not give the same answer for
+		// a tunnel that is on its way out (it may consult the context, or a
+		// table the application has already updated): the key a tunnel was
+		// registered under is the one it has until it is gone.
+		if rt := tunnelOf(ch); (rt != nil && rt.endCause != 0) || ch.Context().Err() != nil {
+			if v := md.Get("sim-key"); len(v) > 0 {
+				return "gone-" + v[0]
+			}
+			return "gone"
+		}
 		if v := md.Get("sim-key"); len(v) > 0 && v[0] != "" {
 			return v[0]
 		}
 		return nil
 	}
-	tunnelOf := func(ch grpctunnel.TunnelChannel) *regTunnel {
+	tunnelOf = func(ch grpctunnel.TunnelChannel) *regTunnel {
 		md, _ := metadata.FromIncomingContext(ch.Context())
 		if v := md.Get("sim-tunnel"); len(v) > 0 {
 			var i int
@@ -148,6 +161,13 @@ func runRegistry(w *World, rs *RunSpec) {
 		if rt := tunnelOf(ch); rt != nil {
 			rt.cbCloses++
 			rt.cbClose = simrt.Emit(simrt.Event{Kind: EvTunnel, S: "rev-close", A: int64(rt.idx)})
+			if rt.idx%2 == 1 {
+				// a slow close callback: it returns only after the next
+				// quiescent point has been examined (the tunnel is closed by
+				// then, whatever its callback is doing)
+				simrt.Count(CntSlowCloseCallback, 1)
+				simrt.Recv(rg.slowGate)
+			}
 		}
 	}
 	h := grpctunnel.NewTunnelServiceHandler(opts)
@@ -358,6 +378,11 @@ func runRegistry(w *World, rs *RunSpec) {
 			}
 		}
 		rg.quiesc = append(rg.quiesc, q)
+		// let the slow close callbacks return
+		g := rg.slowGate
+		rg.slowGate = make(chan struct{})
+		simrt.Close(g)
+		simrt.AwaitStall()
 	}
 	for p := range phases {
 		// clients run concurrently with the mutations of this phase
